@@ -140,19 +140,11 @@ Theorem C13_modes_sidecars : forall existing m, In (Some m) (sidecar_modes exist
 Proof. exact modes_sidecars. Qed.
 Print Assumptions C13_modes_sidecars.
 
-(* --- all created directories are owner-only when at most one path component is missing (or the umask already
-       denies group/other) ... *)
-Theorem C13_modes_dirs_owner_only : forall u n,
-  (n <= 1)%nat \/ owner_only u = true -> forallb owner_only (created_dir_modes u n) = true.
+(* --- all directories the library creates are owner-only, for any number of missing path components and any umask
+       (before fix c284fee "every created ancestor is chmod-ed" this was false for two or more missing components) *)
+Theorem C13_modes_dirs_owner_only : forall u n, forallb owner_only (created_dir_modes u n) = true.
 Proof. exact modes_dirs_owner_only. Qed.
 Print Assumptions C13_modes_dirs_owner_only.
-
-(* --- ... and NOT in general: FALSE of the faithful model (create_dir_all + chmod of the last component only).
-       Witness = the finding C13/intermediate-directory-default-mode. *)
-Theorem C13_modes_intermediate_dir_refuted : exists u n m,
-  In m (created_dir_modes u n) /\ owner_only m = false.
-Proof. exact modes_intermediate_dir_refuted. Qed.
-Print Assumptions C13_modes_intermediate_dir_refuted.
 
 (* --- the model's program order, constructor arms and mode constants are those of the current source text *)
 Theorem C13_keyring_prog_tied : keyring_tied_statement.
@@ -171,7 +163,7 @@ Example C13_matrix_example :
   verdict_of (open_db 99 None (WithKey 2) (Encrypted 1)) = VErr EWrongKey /\
   verdict_of (open_db 99 None Unencrypted (Encrypted 1)) = VErr ENotADatabase /\
   file_after (open_db 99 None Unencrypted Empty) = Plain /\
-  created_dir_modes 493 2 = [493; 448].
+  created_dir_modes 493 2 = [448; 448].
 Proof. exact matrix_example. Qed.
 
 Example C13_good_prog_race_example :
